@@ -161,6 +161,11 @@ def generate(rng, family, package_dir, events=2000, vary=True, shipped_n=False):
         for section in find_section_with(sections, "chain_time"):
             sections[section]["chain_time"] = repr(chain)
             set_out.setdefault(section, {})["chain_time"] = repr(chain)
+    if vary and spec.get("veto") and sections.get("LeafUnitCellVetoEventHandler", {}).get(
+            "estimator") == "inner_point_estimator" and rng.random() < 0.3:
+        # the other single-point estimator (same options): never used by a shipped configuration
+        set_out.setdefault("LeafUnitCellVetoEventHandler", {})["estimator"] = "boundary_point_estimator"
+        set_out["BoundaryPointEstimator"] = dict(sections["InnerPointEstimator"])
     if vary:
         # scheduler
         if rng.random() < 0.5:
